@@ -17,6 +17,7 @@
 -/
 import StathamModel.Elem
 import StathamModel.Float64
+import StathamModel.Env
 import StathamModel.Gen.Validators
 namespace Statham
 
@@ -79,13 +80,6 @@ def guard (g : V) (r : Res) : Res :=
   | .pass, r => r
   | .reject, _ => .reject
 end Res
-
-/-- Environment: what the model does not interpret. -/
-structure Env where
-  /-- `re.search(pattern, text) is not None` -/
-  re : String → String → Bool
-  /-- the checker registered for a format name, if any -/
-  fmt : String → Option (String → Bool)
 
 /-- `Element()` applied to a value: always accepts; dicts come back as `_AnonymousObject`. -/
 def trivialConv : JVal → RVal
@@ -202,18 +196,34 @@ def literalChecks (kw : Kw) (v : JVal) : V :=
 
 /-! ### Closures for sub-elements -/
 
-abbrev Call := Arg → Res
+abbrev CallG (ρ : Type) := Arg → ρ
+abbrev Call := CallG Res
 
-structure Sub where
-  items : List Call := []
-  addItems : Option (Bool × Call) := none      -- (is it truthy i.e. not `Nothing`, call)
-  contains : Option Call := none
-  props : List (Key × Option JVal × Call) := []  -- key, the property element's default, call
-  patProps : List (Key × Call) := []
-  addProps : Option Call := none
-  propNames : Option Call := none
-  deps : List (Key × Call) := []
-  elements : List Call := []
+/-- the sub-elements of one element, as functions of the argument they are called with;
+    `ρ` is what a call yields (`Res` for the real thing, `V` for the verdict-only view) -/
+structure SubG (ρ : Type) where
+  items : List (CallG ρ) := []
+  addItems : Option (Bool × CallG ρ) := none      -- (is it truthy i.e. not `Nothing`, call)
+  contains : Option (CallG ρ) := none
+  props : List (Key × Option JVal × CallG ρ) := []  -- key, the property element's default, call
+  patProps : List (Key × CallG ρ) := []
+  addProps : Option (CallG ρ) := none
+  propNames : Option (CallG ρ) := none
+  deps : List (Key × CallG ρ) := []
+  elements : List (CallG ρ) := []
+
+abbrev Sub := SubG Res
+
+def SubG.map {ρ σ} (g : ρ → σ) (s : SubG ρ) : SubG σ :=
+  { items := s.items.map (fun f a => g (f a))
+    addItems := s.addItems.map (fun p => (p.1, fun a => g (p.2 a)))
+    contains := s.contains.map (fun f a => g (f a))
+    props := s.props.map (fun p => (p.1, p.2.1, fun a => g (p.2.2 a)))
+    patProps := s.patProps.map (fun p => (p.1, fun a => g (p.2 a)))
+    addProps := s.addProps.map (fun f a => g (f a))
+    propNames := s.propNames.map (fun f a => g (f a))
+    deps := s.deps.map (fun p => (p.1, fun a => g (p.2 a)))
+    elements := s.elements.map (fun f a => g (f a)) }
 
 /-! ### `_attempt_schemas` -/
 def firstOk : List Res → Option RVal
@@ -243,17 +253,25 @@ def allOfCall (fs : List Call) (a : Arg) : Res :=
   | .notPassed => .ok .notPassed
   | .val v => attempt .allOf (fs.map (fun f => f (.val v)))
 
+/-- the three ways `Properties`/`Items` manufacture an element on the fly -/
+structure Alg (ρ : Type) where
+  trivial : CallG ρ                       -- `Element()`
+  nothing : CallG ρ                       -- `Nothing()`
+  allOf : List (CallG ρ) → CallG ρ        -- `AllOf(*elements)` without a default
+
+def resAlg : Alg Res := { trivial := trivialCall, nothing := nothingCall, allOf := allOfCall }
+
 /-! ### `Items` -/
-def additionalItemCall (kw : Kw) (sub : Sub) : Call :=
+def additionalItemCall {ρ} (alg : Alg ρ) (kw : Kw) (sub : SubG ρ) : CallG ρ :=
   match sub.addItems with
   | some (_, f) => f
-  | none => if kw.addItemsB then trivialCall else nothingCall
+  | none => if kw.addItemsB then alg.trivial else alg.nothing
 
-def itemCall (kw : Kw) (sub : Sub) (idx : Nat) : Call :=
+def itemCall {ρ} (alg : Alg ρ) (kw : Kw) (sub : SubG ρ) (idx : Nat) : CallG ρ :=
   match kw.itemsKind with
-  | .none => trivialCall
-  | .single => (sub.items.head?).getD trivialCall
-  | .tuple => (sub.items[idx]?).getD (additionalItemCall kw sub)
+  | .none => alg.trivial
+  | .single => (sub.items.head?).getD alg.trivial
+  | .tuple => (sub.items[idx]?).getD (additionalItemCall alg kw sub)
 
 def collect : List Res → Res
   | [] => .ok (.arr [])
@@ -266,15 +284,15 @@ def collect : List Res → Res
     | .ok x, .ok (.arr xs) => .ok (.arr (x :: xs))
     | .ok _, .ok _ => .reject  -- unreachable
 
-def itemsCallFrom (kw : Kw) (sub : Sub) (idx : Nat) : List JVal → List Res
+def itemsCallFrom {ρ} (alg : Alg ρ) (kw : Kw) (sub : SubG ρ) (idx : Nat) : List JVal → List ρ
   | [] => []
-  | x :: xs => itemCall kw sub idx (.val x) :: itemsCallFrom kw sub (idx + 1) xs
+  | x :: xs => itemCall alg kw sub idx (.val x) :: itemsCallFrom alg kw sub (idx + 1) xs
 
 def itemsCall (kw : Kw) (sub : Sub) (xs : List JVal) : Res :=
-  collect (itemsCallFrom kw sub 0 xs)
+  collect (itemsCallFrom resAlg kw sub 0 xs)
 
 /-- `AdditionalItems._validate` -/
-def additionalItemsCheck (kw : Kw) (sub : Sub) (xs : List JVal) : V :=
+def additionalItemsCheck {ρ} (kw : Kw) (sub : SubG ρ) (xs : List JVal) : V :=
   match kw.itemsKind with
   | .tuple =>
     if xs.length ≤ sub.items.length then .pass
@@ -283,34 +301,34 @@ def additionalItemsCheck (kw : Kw) (sub : Sub) (xs : List JVal) : V :=
       | none => V.ofBool kw.addItemsB
   | _ => .pass
 
-def containsCheck (sub : Sub) (xs : List JVal) : V :=
-  optCheck sub.contains fun f => V.any (fun x => (f (.val x)).verdict) xs
+def containsCheck {ρ} (vd : ρ → V) (sub : SubG ρ) (xs : List JVal) : V :=
+  optCheck sub.contains fun f => V.any (fun x => vd (f (.val x))) xs
 
 /-! ### `Properties` -/
-def additionalPropCall (kw : Kw) (sub : Sub) : Call :=
+def additionalPropCall {ρ} (alg : Alg ρ) (kw : Kw) (sub : SubG ρ) : CallG ρ :=
   match sub.addProps with
   | some f => f
-  | none => if kw.addPropsB then trivialCall else nothingCall
+  | none => if kw.addPropsB then alg.trivial else alg.nothing
 
 /-- last declared property whose source is `k` (`{prop.source: prop for …}.get(k)`) -/
-def findDeclared (props : List (Key × Option JVal × Call)) (k : String) : Option (Key × Call) :=
+def findDeclared {ρ} (props : List (Key × Option JVal × CallG ρ)) (k : String) : Option (Key × CallG ρ) :=
   props.foldl (fun acc p => if p.1.src == k then some (p.1, p.2.2) else acc) none
 
-def matchingPats (env : Env) (pats : List (Key × Call)) (k : String) : List Call :=
+def matchingPats {ρ} (env : Env) (pats : List (Key × CallG ρ)) (k : String) : List (CallG ρ) :=
   (pats.filter (fun p => env.re p.1.name k)).map (·.2)
 
 /-- `Properties.__getitem__(k)` applied to `a`: the result key and the outcome -/
-def resolveCall (env : Env) (kw : Kw) (sub : Sub) (k : String) (a : Arg) : String × Res :=
+def resolveCall {ρ} (alg : Alg ρ) (env : Env) (kw : Kw) (sub : SubG ρ) (k : String) (a : Arg) : String × ρ :=
   let pats := matchingPats env sub.patProps k
   match findDeclared sub.props k, pats with
-  | none, [] => (k, additionalPropCall kw sub a)
+  | none, [] => (k, additionalPropCall alg kw sub a)
   | none, [f] => (k, f a)
-  | none, fs => (k, allOfCall fs a)
+  | none, fs => (k, alg.allOf fs a)
   | some (key, f), [] => (key.name, f a)
-  | some (key, f), fs => (key.name, allOfCall (f :: fs) a)
+  | some (key, f), fs => (key.name, alg.allOf (f :: fs) a)
 
 /-- keys in the order `Properties.__call__` visits them -/
-def visitKeys (sub : Sub) (kvs : List (String × JVal)) : List String :=
+def visitKeys {ρ} (sub : SubG ρ) (kvs : List (String × JVal)) : List String :=
   let srcs := removeDups (sub.props.map (fun p => p.1.src))
   srcs ++ (JVal.keys kvs).filter (fun k => !srcs.contains k)
 
@@ -325,38 +343,43 @@ def collectKV : List (String × Res) → Res
     | .ok x, .ok (.anon xs) => .ok (.anon ((k, x) :: xs))
     | .ok _, .ok _ => .reject  -- unreachable
 
+def argOf (kvs : List (String × JVal)) (k : String) : Arg :=
+  match JVal.lookup k kvs with
+  | some x => .val x
+  | none => .notPassed
+
+def propsOuts {ρ} (alg : Alg ρ) (env : Env) (kw : Kw) (sub : SubG ρ) (kvs : List (String × JVal)) : List (String × ρ) :=
+  (visitKeys sub kvs).map fun k => resolveCall alg env kw sub k (argOf kvs k)
+
 def propsCall (env : Env) (kw : Kw) (sub : Sub) (kvs : List (String × JVal)) : Res :=
-  let outs := (visitKeys sub kvs).map fun k =>
-    resolveCall env kw sub k (match JVal.lookup k kvs with
-      | some x => .val x
-      | none => .notPassed)
+  let outs := propsOuts resAlg env kw sub kvs
   match collectKV outs with
   | .ok (.anon l) => .ok (.anon (dictOfList l))
   | r => r
 
-def propNamesCheck (sub : Sub) (kvs : List (String × JVal)) : V :=
-  optCheck sub.propNames fun f => V.all (fun kv => (f (.val (.str kv.1))).verdict) kvs
+def propNamesCheck {ρ} (vd : ρ → V) (sub : SubG ρ) (kvs : List (String × JVal)) : V :=
+  optCheck sub.propNames fun f => V.all (fun kv => vd (f (.val (.str kv.1)))) kvs
 
-def depElemsCheck (sub : Sub) (kvs : List (String × JVal)) : V :=
-  V.all (fun (d : Key × Call) =>
+def depElemsCheck {ρ} (vd : ρ → V) (sub : SubG ρ) (kvs : List (String × JVal)) : V :=
+  V.all (fun (d : Key × CallG ρ) =>
     if d.1.names.isSome || !(JVal.keys kvs).contains d.1.name then .pass
-    else (d.2 (.val (.obj kvs))).verdict) sub.deps
+    else vd (d.2 (.val (.obj kvs)))) sub.deps
 
-def depNamesOf (sub : Sub) : List (String × List String) :=
+def depNamesOf {ρ} (sub : SubG ρ) : List (String × List String) :=
   sub.deps.filterMap fun d => d.1.names.map fun l => (d.1.name, l)
 
 /-! ### `create` = validators, then `construct` -/
 
-def validators (env : Env) (c : Cls) (kw : Kw) (sub : Sub) (v : JVal) : V :=
+def validators {ρ} (vd : ρ → V) (env : Env) (c : Cls) (kw : Kw) (sub : SubG ρ) (v : JVal) : V :=
   (V.ofBool (typeOk c v)).and <|
   (literalChecks kw v).and <|
   match v with
   | .num x => numChecks kw x
   | .str s => strChecks env kw s
-  | .arr xs => (arrChecks kw xs).and <| (additionalItemsCheck kw sub xs).and <| containsCheck sub xs
+  | .arr xs => (arrChecks kw xs).and <| (additionalItemsCheck kw sub xs).and <| containsCheck vd sub xs
   | .obj kvs =>
     (objChecks kw (sub.props.map fun p => (p.1, p.2.1)) (depNamesOf sub) kvs).and <|
-    (propNamesCheck sub kvs).and <| depElemsCheck sub kvs
+    (propNamesCheck vd sub kvs).and <| depElemsCheck vd sub kvs
   | _ => .pass
 
 def scalarConv : JVal → RVal
@@ -397,7 +420,7 @@ def construct (env : Env) (c : Cls) (kw : Kw) (sub : Sub) (v : JVal) : Res :=
     | v => .ok (scalarConv v)
 
 def create (env : Env) (c : Cls) (kw : Kw) (sub : Sub) (v : JVal) : Res :=
-  Res.guard (validators env c kw sub v) (construct env c kw sub v)
+  Res.guard (validators Res.verdict env c kw sub v) (construct env c kw sub v)
 
 /-- `Element.__call__` / `Object.__new__` + `__init__` -/
 def callCore (env : Env) (c : Cls) (kw : Kw) (sub : Sub) (a : Arg) : Res :=
